@@ -161,9 +161,15 @@ impl Query {
 
     pub fn calc(&self) -> HashSet<Box<[u8]>> {
         let mut result = HashSet::new();
+        let mut is_first = true;
         for cond in self.conds.iter() {
-            if result.is_empty() {
+            // a condition without expressions constrains nothing
+            if cond.conds.is_empty() {
+                continue;
+            }
+            if is_first {
                 result = cond.result.clone();
+                is_first = false;
             } else {
                 result = result
                     .intersection(&cond.result)
